@@ -2,13 +2,13 @@
 from .common import A_COMMON
 N = "menelaus.partitioners.KDQTreePartitioner:KDQTreeNode"
 P = "menelaus.partitioners.KDQTreePartitioner:KDQTreePartitioner"
-TARGETS = [("fn", N + ".build"), ("fn", N + ".fill"), ("fn", N + ".reset"), ("fn", P + ".fill"), ("fn", P + ".reset"),
+TARGETS = [("fn", N + ".build"), ("fn", N + ".fill"), ("fn", N + ".reset"), ("fn", P + ".build"), ("fn", P + ".fill"), ("fn", P + ".reset"),
            ("fn", P + "._distn_from_counts"),
            ("lemma", "mcount_range"), ("lemma", "mcount_complement"), ("lemma", "mcount_pos"),
            ("lemma", "corrected_sum"), ("lemma", "vsum_nonneg"), ("lemma", "kl_lower_bound"), ("lemma", "kl_identity")]
 LEVEL = "exploration"
 LEVEL_TEXT = ('Bounded: KDQTreePartitioner structural invariants and count conservation on point sets over small integer grids, duplicated rows and continuous data, 1-3 dimensions, count_ubound 1-5, fill sequences under three ids with and without reset, distributions, KL, plotly frame incl. KSS. '
-              'Deductive (counted separately): the recursive KDQTreeNode.build / fill / reset and KDQTreePartitioner.fill / reset are proved against contracts with the object-invariant methodology for trees '
+              'Deductive (counted separately): the recursive KDQTreeNode.build / fill / reset and KDQTreePartitioner.build (minimum cell size of feature a = int(proportion * (max - min of column a)), then KDQTreeNode.build through its contract; non-empty data) / fill / reset are proved against contracts with the object-invariant methodology for trees '
               '(every node: leaf or internal with both children; for every tree id a node has a count iff both children do and then it is the sum of theirs): build returns a node whose build count is the number of rows, '
               'splits exactly the axis depth mod width at min + range/2, never splits count_ubound rows or fewer, and gives both children at least one row (mask-count lemmas: the <= / > masks are complementary); '
               'fill adds the number of rows to the count of the id at every node it passes (or restarts it when reset / absent), leaves every other id alone and re-establishes the sum invariant; reset(0) likewise. '
